@@ -79,7 +79,7 @@ func init() {
 			Check: []scanCfg{cm, tr, dup}, Export: []scanCfg{cm, tr, dup}, MaxAPI: 6000, MaxCLIFromTLC: 50,
 			NRandom: 50, MaxTraces: 50,
 			Gen:   genParams{NBlob: 10, NTree: 10, NCommit: 10, NTag: 3, MaxEnt: 5, MaxBlob: 40, Merges: true, RootKinds: "refs"},
-			Fails: scanFails["C02"], Extra: octopusCases("c02"),
+			Fails: scanFails["C02"], Extra: append(octopusCases("c02"), scaleCases("c02")...),
 			Rule: "TLC families Commits (all DAGs, tied sizes; also with repeated parent headers) and Trees (tied blob sizes) x all orders, so the maximal object is first/middle/last and tied; random repositories with few distinct sizes; distinct = distinct (graph, order) / (graph, arguments)",
 		}
 		if !quick(c) {
